@@ -82,6 +82,19 @@ LE, LD = _mk_local()
 
 import http
 import string
+NTI = NewType("NTI", int)
+type TAI = int
+type TAL = List[datetime.date]
+def _mk_alias():
+    type LocalAlias = int
+    return LocalAlias
+LAI = _mk_alias()
+
+@dataclass
+class AliasDC(DataClassDictMixin):
+    a: TAI
+    b: TAL
+    c: Dict[str, LAI] = field(default_factory=dict)
 import ipaddress as _ipa
 GT = TypeVar("GT")
 
@@ -146,6 +159,10 @@ TYPES = [
     ("pep604_nt", "Dict[str, FnNTVar | int]"),
     ("env_status", "EnvStatus"), ("env_addr", "EnvAddr"), ("env1_status", "Env1Status"), ("env1_path", "Env1Path"), ("env_generic", "Env[http.HTTPStatus]"),
     ("odict_made", "OrderedDict[str, MadeDC]"), ("counter", "Counter[str]"), ("chain_fn", "ChainMap[str, FnEnumVar]"),
+    # names that exist only in the annotation (NewType, Annotated, PEP 695 alias) as scalar members of a union
+    ("u_newtype", "Union[NTI, str]"), ("u_annot", "Union[Annotated[int, 'm'], str]"), ("u_alias", "Union[TAI, str]"),
+    ("alias_dc", "AliasDC"), ("alias_list", "List[TAL]"), ("alias_local", "Tuple[LAI, TAI]"),
+    ("u_newtype_list", "List[Union[NTI, datetime.date]]"),
 ]
 
 
